@@ -533,6 +533,12 @@ def cases(seed, tier):
     for name in PROBLEMS:
         for r in range(2 if tier == "quick" else 8):
             out.append({"group": "shareddict", "functional": name, "n": 4 if r % 2 == 0 else 6, "seed": sub_seed(seed, "c18sd", name, r)})
+    # special inputs: unknown name on an input that takes a shortcut; a callable that returns one of its input objects; a method key in bck_options
+    for r in range(3 if tier == "quick" else 20):
+        for kind, names in (("unknown_zero_rhs", ["solve"]), ("returns_input", ["rootfinder", "equilibrium", "minimize", "solve"]),
+                            ("bck_method_key", list(PROBLEMS))):
+            for name in names:
+                out.append({"group": "special", "kind": kind, "functional": name, "n": [3, 4, 6][r % 3], "seed": sub_seed(seed, "c18sp", kind, name, r)})
     for cls in ("Interp1D", "SQuad"):
         for r in range(6 if tier == "quick" else 30):
             out.append({"group": "classes", "functional": cls, "seed": sub_seed(seed, "c18s", k)})
@@ -611,6 +617,13 @@ def run_custom(desc, obs):
         scale = max(1.0, max(float(o.detach().abs().max()) for o in go_r))
         dist = max(float((a.detach() - b.detach()).abs().max()) for a, b in zip(go_c, go_r))
         obs.note(forward_distance=dist)
+        if dist > 1e-7 * scale and variant == "wrap":
+            # the callable ran a built-in scheme on the function / operator xitorch handed to it: a different solution means it was handed
+            # something other than the documented arguments (the closed-form variant ignores them and cannot show this)
+            obs.violation("wrap_solution:" + mech, "a custom callable running a built-in scheme on the arguments it was given reaches another solution than the "
+                          "built-in %s (distance %.2e)" % (P.reference, dist))
+            obs.nontrivial = True
+            return
         if dist > 1e-7 * scale:
             raise HarnessBug("custom %s and built-in %s do not reach the same solution (distance %.2e)" % (variant, P.reference, dist))
         try:
@@ -699,6 +712,120 @@ def run_bad(desc, obs):
             continue
         obs.violation("bad_method_accepted:" + mech, "method=%r was accepted silently" % (bad,))
     obs.counters["assertions_evaluated"] += 5
+    obs.nontrivial = True
+
+
+BCK_METHOD_KEY = {"solve": "exactsolve", "symeig": "exactsolve", "svd": "exactsolve", "rootfinder": "exactsolve", "equilibrium": "exactsolve",
+                  "minimize": "exactsolve", "solve_ivp": "rk45", "quad": "leggauss", "mcquad": "_dummy1d"}
+
+
+def run_special(desc, obs):
+    kind, name = desc["kind"], desc["functional"]
+    P = PROBLEMS[name](desc["seed"], desc["n"])
+    mech = "%s:%s" % (kind, name)
+    if kind == "unknown_zero_rhs":
+        # an all-zero right-hand side takes a shortcut inside solve: the method name must be looked at all the same
+        for withE in (False, True):
+            lv = P.leaves()
+            lv["B"] = torch.zeros_like(lv["B"]).requires_grad_()
+            if not withE:
+                lv["E"] = None
+                lv.pop("Q", None)
+            for bad in ("no_such_method", ""):
+                try:
+                    with WarnLog(), torch.no_grad():
+                        P.call(lv, bad, {}, None)
+                except RuntimeError:
+                    obs.count("bad_methods_rejected")
+                    continue
+                except Exception as e:
+                    obs.violation("bad_method_wrong_error:" + mech, "method=%r raised %s (%s), expected RuntimeError" % (bad, type(e).__name__, str(e)[:120]))
+                    continue
+                obs.violation("bad_method_accepted:" + mech, "method=%r was accepted silently for an all-zero right-hand side" % (bad,))
+        obs.counters["assertions_evaluated"] += 4
+        obs.nontrivial = True
+        return
+    if kind == "returns_input":
+        # the closed-form answer happens to BE one of the inputs (initial guess already at the solution; identity operator): the callable returns that
+        # very tensor object
+        lv_r = P.leaves()
+        lv_c = {k: v.detach().clone().requires_grad_() for k, v in lv_r.items()}
+        try:
+            if name == "solve":
+                import xitorch
+                from xitorch.linalg import solve
+                n = desc["n"]
+                sc_r, sc_c = lv_r["E"][:1].sum() * 0 + 1.7, lv_c["E"][:1].sum() * 0 + 1.7
+
+                def run(lv, method, scal):
+                    A = xitorch.LinearOperator.m(torch.eye(n, dtype=DT) * 1.0 + 0 * _spd_from(lv["P"], 3.0))
+                    return [solve(A, lv["B"], method=method, bck_options={"method": "exactsolve"})]
+                outs_r = run(lv_r, "exactsolve", sc_r)
+                outs_c = run(lv_c, (lambda A, B, E=None, M=None, **o: B), sc_c)
+            else:
+                from xitorch.optimize import rootfinder, equilibrium, minimize
+                fn = {"rootfinder": rootfinder, "equilibrium": equilibrium, "minimize": minimize}[name]
+                with torch.no_grad():
+                    ystar = P.closed()(None, None, (lv_r["W"], lv_r["a"]))
+                outs_r = [fn(P.fcn(), ystar.clone(), params=(lv_r["W"], lv_r["a"]), method=P.reference, bck_options=dict(P.bck_default), f_tol=1e-12, x_tol=1e-12)]
+                outs_c = [fn(P.fcn(), ystar.clone(), params=(lv_c["W"], lv_c["a"]), method=(lambda fcn, y0, params, **o: y0), bck_options=dict(P.bck_default))]
+            tg = torch.Generator().manual_seed(desc["seed"] + 1)
+            g1_r, g2_r = _contract(outs_r, list(lv_r.values()), tg)
+        except Exception as e:
+            raise HarnessBug("reference run of returns_input failed: %s: %s" % (type(e).__name__, e))
+        try:
+            tg = torch.Generator().manual_seed(desc["seed"] + 1)
+            g1_c, g2_c = _contract(outs_c, list(lv_c.values()), tg)
+        except Exception as e:
+            obs.exc_violation("returns_input:backward:" + name, e)
+            obs.nontrivial = True
+            return
+        dist = max(float((a.detach() - b.detach()).abs().max()) for a, b in zip(outs_c, outs_r))
+        obs.check(dist <= 1e-9, "returns_input:value:" + name, "the functional did not return the value of the tensor the callable returned (distance %.2e)" % dist)
+        for order, gc, gr in (("grad1", g1_c, g1_r), ("grad2", g2_c, g2_r)):
+            if gc is None or gr is None:
+                obs.check((gc is None) == (gr is None), "returns_input:%s_presence:%s" % (order, name), "second-order graph present for one side only")
+                continue
+            sc = max([1.0] + [float(x.abs().max()) for x in gr])
+            err = max(float((a - b).abs().max()) for a, b in zip(gc, gr))
+            obs.check(err <= 1e-6 * sc, "returns_input:%s:%s" % (order, name), "%s with a callable that returns its input object differs from the built-in's by %.3e" % (order, err))
+        obs.count("returns_input_compared")
+        obs.nontrivial = True
+        return
+    # ---- bck_method_key: a built-in forward method with / without an explicit (equivalent) method entry in bck_options
+    lv_a = P.leaves()
+    lv_b = {k: (v.detach().clone().requires_grad_() if isinstance(v, torch.Tensor) else v) for k, v in lv_a.items()}
+    base = dict(P.bck_default or {})
+    opts = dict(getattr(P, "ref_opts", {}) or {})
+    try:
+        with WarnLog():
+            outs_a = P.call(lv_a, P.reference, dict(opts), dict(base))
+            tg = torch.Generator().manual_seed(desc["seed"] + 1)
+            g1_a, g2_a = _contract(P.gauge(outs_a), [v for v in lv_a.values() if isinstance(v, torch.Tensor)], tg)
+    except Exception as e:
+        raise HarnessBug("run without the method key failed for %s: %s: %s" % (name, type(e).__name__, e))
+    bck = dict(base)
+    bck["method"] = BCK_METHOD_KEY[name]
+    if name == "quad":
+        bck.update(opts)
+    try:
+        with WarnLog():
+            outs_b = P.call(lv_b, P.reference, dict(opts), bck)
+            tg = torch.Generator().manual_seed(desc["seed"] + 1)
+            g1_b, g2_b = _contract(P.gauge(outs_b), [v for v in lv_b.values() if isinstance(v, torch.Tensor)], tg)
+    except Exception as e:
+        obs.exc_violation("bck_method_key:" + name, e)
+        obs.nontrivial = True
+        return
+    for order, ga, gb in (("grad1", g1_a, g1_b), ("grad2", g2_a, g2_b)):
+        if ga is None or gb is None:
+            obs.check((ga is None) == (gb is None), "bck_method_key:%s_presence:%s" % (order, name), "second-order graph present for one side only")
+            continue
+        sc = max([1.0] + [float(x.abs().max()) for x in ga])
+        err = max(float((a - b).abs().max()) for a, b in zip(ga, gb))
+        obs.check(err <= 10 * P.tol * sc, "bck_method_key:%s:%s" % (order, name),
+                  "%s with bck_options['method']=%r differs from the run without that entry by %.3e (scale %.2e)" % (order, bck["method"], err, sc))
+    obs.count("bck_method_key_compared")
     obs.nontrivial = True
 
 
@@ -844,6 +971,8 @@ def run_case(desc):
         run_custom(desc, obs)
     elif g == "names":
         run_names(desc, obs)
+    elif g == "special":
+        run_special(desc, obs)
     elif g == "bad":
         run_bad(desc, obs)
     elif g == "classes":
